@@ -148,8 +148,11 @@ macro_rules! c14_for_crate {
             }
 
             fn check_ip<const N4: usize, const N6: usize>() {
+                check_ip_on::<N4, N6>(any_endpoint_pair())
+            }
+
+            fn check_ip_on<const N4: usize, const N6: usize>((a, b): (IpAddr, IpAddr)) {
                 let (f, c) = ip_case::<N4, N6>();
-                let (a, b) = any_endpoint_pair();
                 let got = f.matches(&a, &b);
                 let want = ip_oracle(&c, &a, &b);
                 kani::cover!(got || N4 + N6 == 0, "ip filter matches");
@@ -214,8 +217,11 @@ macro_rules! c14_for_crate {
             }
 
             fn check_net<const N4: usize, const N6: usize>() {
+                check_net_on::<N4, N6>(any_endpoint_pair())
+            }
+
+            fn check_net_on<const N4: usize, const N6: usize>((a, b): (IpAddr, IpAddr)) {
                 let (f, c) = net_case::<N4, N6>();
-                let (a, b) = any_endpoint_pair();
                 let got = f.matches(&a, &b);
                 let want = net_oracle(&c, &a, &b);
                 kani::cover!(got || N4 + N6 == 0, "subnet filter matches");
@@ -333,6 +339,17 @@ macro_rules! c14_for_crate {
             #[kani::unwind(20)]
             pub fn c14_ip_21() {
                 check_ip::<2, 1>()
+            }
+            // ---- mixed-family endpoint pairs (v4/v6, v6/v4 as well), 1 v4 + 1 v6 element ----
+            #[kani::proof]
+            #[kani::unwind(20)]
+            pub fn c14_ipmix_11() {
+                check_ip_on::<1, 1>(any_endpoint_pair_mixed())
+            }
+            #[kani::proof]
+            #[kani::unwind(20)]
+            pub fn c14_netmix_11() {
+                check_net_on::<1, 1>(any_endpoint_pair_mixed())
             }
             // ---- subnet filter shapes ----
             #[kani::proof]
